@@ -70,9 +70,18 @@ func run(c *rig.Ctx) {
 	c.Part("freq", 2048, func(i int64, r *rig.Rng) {
 		f := int(i)
 		m := newMachine()
+		if f%2 == 1 || f >= 2040 {
+			// with sample outputs attached (what is sampled must not disturb what is played)
+			m = rig.MustNew(rig.BlankROM(0, 0, 0), rig.Opts{AudioOut: true})
+			m.Mem.Write(0xff26, 0x80)
+			m.Mem.Write(0xff24, 0x77)
+			m.Mem.Write(0xff25, 0xff)
+			c.Count("frequencies_timed_with_outputs_attached", 3)
+		}
 		// a random amount of time first, so that the phase relative to the machine cycle varies
 		for k := 0; k < r.Intn(97); k++ {
 			m.Audio.EndMachineCycle()
+			m.Drain()
 		}
 		lo, hi := uint8(f), uint8(f>>8)&7
 		// the waveform steps whatever the volume: full, zero (DAC still on), zero fading in, one
@@ -102,6 +111,7 @@ func run(c *rig.Ctx) {
 		done := [3]bool{}
 		for n := int64(1); n <= limit+8; n++ {
 			m.Audio.EndMachineCycle()
+			m.Drain()
 			cur := m.Audio.XWaveState()
 			d := [3]int{int(cur.Duty1-prev.Duty1) & 7, int(cur.Duty2-prev.Duty2) & 7, int(cur.WavePos-prev.WavePos) & 31}
 			prev = cur
